@@ -293,7 +293,70 @@ pub fn describe_bytes(b: &Option<jbk::reader::MayMissPack<Option<jbk::reader::By
     }
 }
 
+/// The same question through the helper methods of `MayMissPack` (the idiom documented on
+/// `Container::get_bytes` and used by the repository's examples: `.and_then(|m| m.transpose())`,
+/// `get()`, `map`, `as_ref`): must tell the same story as matching on the variants.
+fn helpers_disagree(c: &jbk::reader::Container, a: jbk::ContentAddress) -> Option<String> {
+    use jbk::reader::MayMissPack as M;
+    let shape = |m: &Option<M<Option<jbk::reader::ByteRegion>>>| match m {
+        None => "no-such-pack",
+        Some(M::MISSING(_)) => "missing",
+        Some(M::FOUND(None)) => "no-such-content",
+        Some(M::FOUND(Some(_))) => "found",
+    };
+    let direct = c.get_bytes(a).ok()?;
+    let want = shape(&direct);
+    // transpose: FOUND(None) -> None, MISSING -> Some(MISSING), FOUND(Some) -> Some(FOUND)
+    let t = match c.get_bytes(a).ok()?.and_then(|m| m.transpose()) {
+        None => "none",
+        Some(M::MISSING(_)) => "missing",
+        Some(M::FOUND(_)) => "found",
+    };
+    let t_want = match want {
+        "no-such-pack" | "no-such-content" => "none",
+        w => w,
+    };
+    if t != t_want {
+        return Some(format!("get_bytes answers {want}, get_bytes(..).and_then(|m| m.transpose()) answers {t}"));
+    }
+    // get(): Some only when found
+    let g = match c.get_bytes(a).ok()?.map(|m| m.get()) {
+        None => "no-such-pack",
+        Some(None) => "missing",
+        Some(Some(None)) => "no-such-content",
+        Some(Some(Some(_))) => "found",
+    };
+    if g != want {
+        return Some(format!("get_bytes answers {want}, through MayMissPack::get it reads as {g}"));
+    }
+    // map + as_ref keep the variant (and the description of a missing pack)
+    if let Some(m) = c.get_bytes(a).ok()? {
+        let size = m.as_ref().map(|o| o.as_ref().map(|r| r.size().into_u64()));
+        let s = match (&size, want) {
+            (M::MISSING(_), "missing") | (M::FOUND(None), "no-such-content") | (M::FOUND(Some(_)), "found") => true,
+            _ => false,
+        };
+        if !s {
+            return Some(format!("get_bytes answers {want}, as_ref().map(..) changes the variant"));
+        }
+        if let (M::MISSING(p1), Some(M::MISSING(p2))) = (&size, &direct) {
+            if p1.uuid != p2.uuid || p1.pack_id != p2.pack_id || p1.pack_location != p2.pack_location {
+                return Some("as_ref() of a MISSING answer describes another pack".into());
+            }
+        }
+    }
+    // the pack itself, the same way
+    match (c.get_pack(a.pack_id), want) {
+        (Ok(None), "no-such-pack") | (Ok(Some(M::MISSING(_))), "missing") | (Ok(Some(M::FOUND(_))), "found" | "no-such-content") => None,
+        (Err(_), _) => None,
+        (other, _) => Some(format!("get_bytes answers {want}, get_pack answers {}", match other { Ok(None) => "no such pack", Ok(Some(M::MISSING(_))) => "missing", _ => "found" })),
+    }
+}
+
 pub fn read_content(c: &jbk::reader::Container, a: jbk::ContentAddress) -> ContentRead {
+    if let Some(d) = helpers_disagree(c, a) {
+        return ContentRead::Error(format!("MayMissPack helpers disagree: {d}"));
+    }
     match c.get_bytes(a) {
         Err(e) => ContentRead::Error(e.to_string()),
         Ok(None) => ContentRead::NoSuchPack,
